@@ -12,8 +12,17 @@ type Leaf struct {
 	S []int
 }
 
+// Meta is embedded (anonymously) in Graph: an embedded struct other than sod.Item that carries mutable
+// content of its own must be deep-copied like any other field
+type Meta struct {
+	MT []int
+	MP *int
+	MM map[string]int
+}
+
 type Graph struct {
 	sod.Item
+	Meta
 	N  int `sod:"index"`
 	A  [2]*int
 	B  [2][]int
